@@ -287,6 +287,27 @@ def State.select (st : State) (ρ : CEnv) (cl : Clauses) (k : Ident) (vs : List 
     | .ok ρ' => st.goto body ρ'
     | .error e => stuck e
 
+/-- a producer value is passed to a consumer value (cut at an integer or data type) -/
+def State.pass (st : State) (pv cv : CVal) : Step State :=
+  match cv with
+  | .mutilde ρ' x s => st.goto s ((x, pv) :: ρ')
+  | .case ρ' cl =>
+    match pv with
+    | .con k vs => st.select ρ' cl k vs
+    | _ => stuck .shape
+  | .halt =>
+    match pv with
+    | .int n => .final (.done n)
+    | _ => stuck .shape
+  | _ => stuck .shape
+
+/-- the destructor `d(vs)` is sent to a producer value (cut at a codata type) -/
+def State.invoke (st : State) (pv : CVal) (d : Ident) (vs : List CVal) : Step State :=
+  match pv with
+  | .cocase ρ' cl => st.select ρ' cl d vs
+  | .thunk ρ' a s => st.goto s ((a, .dtor d vs) :: ρ')
+  | _ => stuck .shape
+
 /-- a cut whose arguments are all variables -/
 def stepCut (codata : Bool) (st : State) (p c : Term) : Step State :=
   let ρ := st.env
@@ -300,9 +321,7 @@ def stepCut (codata : Bool) (st : State) (p c : Term) : Step State :=
       | .error e => stuck e
     | .ok (.dtor d vs) =>
       match prdVal ρ p with
-      | .ok (.cocase ρ' cl) => st.select ρ' cl d vs
-      | .ok (.thunk ρ' a s) => st.goto s ((a, .dtor d vs) :: ρ')
-      | .ok _ => stuck .shape
+      | .ok pv => st.invoke pv d vs
       | .error e => stuck e
     | .ok _ => stuck .shape
   else
@@ -318,16 +337,7 @@ def stepCut (codata : Bool) (st : State) (p c : Term) : Step State :=
       | .ok pv =>
         match cnsVal ρ c with
         | .error e => stuck e
-        | .ok (.mutilde ρ' x s) => st.goto s ((x, pv) :: ρ')
-        | .ok (.case ρ' cl) =>
-          match pv with
-          | .con k vs => st.select ρ' cl k vs
-          | _ => stuck .shape
-        | .ok .halt =>
-          match pv with
-          | .int n => .final (.done n)
-          | _ => stuck .shape
-        | .ok _ => stuck .shape
+        | .ok cv => st.pass pv cv
 
 def step (p : Prog) (st : State) : Step State :=
   match sigmaStep (sigmaName st.fresh) st.stmt with
@@ -434,6 +444,25 @@ def FsState.select (st : FsState) (ρ : FEnv) (cl : FsClauses) (k : Ident) (vs :
     | .ok ρ' => st.goto body ρ'
     | .error e => stuck e
 
+def FsState.pass (st : FsState) (pv cv : FVal) : Step FsState :=
+  match cv with
+  | .mutilde ρ' x s => st.goto s ((x, pv) :: ρ')
+  | .case ρ' cl =>
+    match pv with
+    | .con k vs => st.select ρ' cl k vs
+    | _ => stuck .shape
+  | .halt =>
+    match pv with
+    | .int n => .final (.done n)
+    | _ => stuck .shape
+  | _ => stuck .shape
+
+def FsState.invoke (st : FsState) (pv : FVal) (d : Ident) (vs : List FVal) : Step FsState :=
+  match pv with
+  | .cocase ρ' cl => st.select ρ' cl d vs
+  | .thunk ρ' a s => st.goto s ((a, .dtor d vs) :: ρ')
+  | _ => stuck .shape
+
 def fsStepCut (codata : Bool) (st : FsState) (p c : FsTerm) : Step FsState :=
   let ρ := st.env
   if codata then
@@ -445,9 +474,7 @@ def fsStepCut (codata : Bool) (st : FsState) (p c : FsTerm) : Step FsState :=
       | .error e => stuck e
     | .ok (.dtor d vs) =>
       match fsPrdVal ρ p with
-      | .ok (.cocase ρ' cl) => st.select ρ' cl d vs
-      | .ok (.thunk ρ' a s) => st.goto s ((a, .dtor d vs) :: ρ')
-      | .ok _ => stuck .shape
+      | .ok pv => st.invoke pv d vs
       | .error e => stuck e
     | .ok _ => stuck .shape
   else
@@ -462,16 +489,7 @@ def fsStepCut (codata : Bool) (st : FsState) (p c : FsTerm) : Step FsState :=
       | .ok pv =>
         match fsCnsVal ρ c with
         | .error e => stuck e
-        | .ok (.mutilde ρ' x s) => st.goto s ((x, pv) :: ρ')
-        | .ok (.case ρ' cl) =>
-          match pv with
-          | .con k vs => st.select ρ' cl k vs
-          | _ => stuck .shape
-        | .ok .halt =>
-          match pv with
-          | .int n => .final (.done n)
-          | _ => stuck .shape
-        | .ok _ => stuck .shape
+        | .ok cv => st.pass pv cv
 
 def fsStep (p : FsProg) (st : FsState) : Step FsState :=
   let ρ := st.env
